@@ -14,7 +14,6 @@ import (
 	"time"
 
 	"deps.dev/util/resolve"
-	"deps.dev/util/resolve/npm"
 	"github.com/anishathalye/porcupine"
 	"verif/harness/uni"
 )
@@ -474,6 +473,11 @@ func runScenario(e *env, cc *ConcCase, budget int64, jit *jitter) (*recorder, []
 			defer wg.Done()
 			c := &recClient{c: ac, rec: rec, g: g}
 			ctx := context.Background()
+			defer func() {
+				if p := recover(); p != nil {
+					results[g] = append(results[g], resolutionResult{g: g, root: [2]string{"(scripted call)", ""}, out: outcome{panicked: fmt.Sprint(p)}})
+				}
+			}()
 			<-start
 			for _, st := range cc.Scripts[g] {
 				if jit != nil {
@@ -548,14 +552,14 @@ func judgeScenario(st *concStats, cs Case, rec *recorder, res []resolutionResult
 		}
 	}
 	for _, rr := range res {
+		if rr.out.panicked != "" {
+			st.violation("conc:panic", fmt.Sprintf("goroutine %d: %s@%s panicked on the shared client: %s", rr.g, rr.root[0], rr.root[1], rr.out.panicked), cs)
+			continue
+		}
 		want := orc.resolution(rr.root)
 		st.count("conc:resolutions", 1)
 		if rr.out.bundled > 0 {
 			st.count("conc:resolutions-with-bundled-nodes", 1)
-		}
-		if rr.out.panicked != "" {
-			st.violation("conc:panic", fmt.Sprintf("goroutine %d: resolution of %s@%s panicked: %s", rr.g, rr.root[0], rr.root[1], rr.out.panicked), cs)
-			continue
 		}
 		if rr.out.enc != want.enc {
 			st.violation("conc:value:Resolve", fmt.Sprintf("goroutine %d: resolution of %s@%s on the shared client differs from the sequential one.\nshared:\n%s\nsequential:\n%s", rr.g, rr.root[0], rr.root[1], clip(rr.out.enc, 3000), clip(want.enc, 3000)), cs)
@@ -716,4 +720,3 @@ func replayConc(cs Case, reps int, st *concStats) {
 	}
 }
 
-var _ = npm.NewResolver
